@@ -1416,11 +1416,11 @@ int gp_str_compare(
     GPArray(wchar_t) wcs1 = gp_arr_new(
         (GPAllocator*)scratch,
         sizeof wcs1[0],
-        gp_bytes_codepoint_count(s1, gp_str_length(s1) + sizeof""));
+        gp_bytes_codepoint_count(s1, gp_str_length(s1)) + sizeof"");
     GPArray(wchar_t) wcs2 = gp_arr_new(
         (GPAllocator*)scratch,
         sizeof wcs2[0],
-        gp_bytes_codepoint_count(s2, s2_length + sizeof""));
+        gp_bytes_codepoint_count(s2, s2_length) + sizeof"");
 
     if (fold) {
         gp_wcs_fold_utf8(&wcs1, s1, gp_str_length(s1), locale_code);
